@@ -163,6 +163,21 @@ def shards(obs):
     return out
 
 
+def samples(obs):
+    """actual observations (small ones, verbatim): one truncated listing through client+server per file system, one direct, one script"""
+    out = []
+    pages = [o for o in obs if o["kind"] == "pages"]
+    for fs in (0, 1, 2, 3):
+        c = [o for o in pages if o["fs"] == fs and o["remote"] and 2 <= len(o["names"] or []) <= 5 and len(o["pages"] or []) >= 2]
+        if c:
+            out.append(c[0])
+    c = [o for o in pages if not o["remote"] and 2 <= len(o["names"] or []) <= 5 and len(o["pages"] or []) >= 2]
+    out += c[:1]
+    c = [o for o in obs if o["kind"] == "qids" and len(o["ops"]) <= 12]
+    out += c[:1]
+    return out
+
+
 def summarize(o):
     if o["kind"] == "pages":
         return {"kind": "pages", "fs": ["localfs", "staticfs", "composefs", "nested"][o["fs"]], "remote": o["remote"], "msize": o["msize"],
@@ -218,6 +233,15 @@ def apply_replay(ctx):
 
 
 def run(ctx):
+    import time as _time
+    _t0 = _time.time()
+    try:
+        run1(ctx)
+    finally:
+        ctx._run_s = _time.time() - _t0
+
+
+def run1(ctx):
     apply_replay(ctx)
     rebuild_if_make_flaked(ctx)
     obs = []
@@ -295,14 +319,21 @@ def run(ctx):
                            "note": "client+server rows: real p9.NewClient(WithMessageSize(msize)) + real p9.Server over net.Pipe; Readdir pages, "
                                    "Walk([name]) and GetAttr all go through the wire; pages compared with Paging.v (remote_readdir: client clamp, "
                                    "server clamp, whole-entry truncation), QIDs/types of every listed entry compared with the Walk and GetAttr replies"},
-        "samples": [summarize(o) for o in (pages[:1] + pages[len(pages) // 2:len(pages) // 2 + 1] + [x for x in obs if x["kind"] == "qids"][:1])],
+        "samples": samples(obs),
     })
 
 
 def search(ctx):
-    """Obligation or correspondence broken and no observed failure: thorough budget."""
-    if ctx.thorough:
-        return
-    ctx.tier = "thorough"
-    ctx.thorough = True
-    run(ctx)
+    """An obligation or the correspondence broke and nothing failing was observed: generate more inputs (further seeds,
+    same tier) while ctx.search_budget_s allows; the duration of the run just made is the estimate for one more."""
+    import time
+    budget = getattr(ctx, "search_budget_s", 150)
+    t0 = time.time()
+    one = max(15.0, getattr(ctx, "_run_s", 60.0))
+    seed0, k = ctx.seed, 0
+    while not ctx.violations and k < 4 and time.time() - t0 + one <= budget:
+        k += 1
+        ctx.seed = seed0 + 1000 * k
+        ctx.note("search: further inputs, seed %d" % ctx.seed)
+        run(ctx)
+    ctx.seed = seed0
